@@ -17,6 +17,11 @@ Modelling decisions
   never exhausted (termination of the real recursion on every finite graph,
   cyclic or not).  The `while !frontier.is_empty()` loop of `sort_plan` is
   treated the same way with budget `plan.length`.
+  Since commit "fix: planner: traverse the graph with an explicit stack instead of
+  recursion" the code keeps the operators being visited (with the position of their next
+  dependency) in a `Vec` instead of on the call stack; the recursive presentation below is
+  the same computation (one frame = one pending `visit`), and the depth bound proved for
+  it bounds the length of that `Vec`.
 * `RunError::PlanningError(String)` is reduced to the class of the message.
 * `sortPlan` takes a flag `dedup`.  `dedup = true` is the code as it stands
   (after commit "fix: planner: never schedule an operator twice in sort_plan");
